@@ -484,6 +484,7 @@ def count_lines(path):
 
 
 def cleanup_runs():
+    prune_cases()
     d = os.path.join(WORK, 'run')
     if os.path.isdir(d):
         for e in os.listdir(d):
@@ -493,6 +494,28 @@ def cleanup_runs():
                     shutil.rmtree(p, ignore_errors=True) if os.path.isdir(p) else os.unlink(p)
             except OSError:
                 pass
+
+
+def prune_cases(budget=int(os.environ.get('VERIF_CASES_BUDGET_GB', '16')) * 10**9, min_age=1800):
+    """Generated case files are a cache (keyed by the hash of the modules and the cfg): keep the directory under `budget` bytes by
+    deleting the least recently used files (tlc_gen touches a file on every use); files used in the last `min_age` seconds stay."""
+    d = os.path.join(WORK, 'cases')
+    try:
+        ents = [(os.path.getmtime(os.path.join(d, e)), os.path.getsize(os.path.join(d, e)), os.path.join(d, e)) for e in os.listdir(d) if not e.endswith('.lock')]
+    except OSError:
+        return
+    total = sum(x[1] for x in ents)
+    now = time.time()
+    for mt, sz, path in sorted(ents):
+        if total <= budget:
+            break
+        if now - mt < min_age:
+            continue
+        try:
+            os.unlink(path)
+            total -= sz
+        except OSError:
+            pass
 
 
 # ------------------------------------------------------------------ generic G-binding replay
